@@ -41,7 +41,7 @@ def confirm(args):
         shutil.rmtree(wt, ignore_errors=True)
     res['confirmed'] = res.get('demo_clean') == 0 and res.get('apply') == 0 and res.get('demo_patched', 0) != 0 and res.get('tests_ok', False)
     if res['confirmed']:
-        dst = '%s/seeded/%s-m%s' % (V, prop, k)
+        dst = '%s/seeded/%s%s-m%s' % (V, os.environ.get('SEED_PREFIX', ''), prop, k)
         os.makedirs(dst, exist_ok=True)
         for fn in ('patch.diff', 'demo.py', 'notes.md'):
             if os.path.exists(d + '/' + fn):
